@@ -140,6 +140,21 @@ def mutate(rng, s, other=b""):
     return bytes(s)
 
 
+def weird_number(rng):
+    """number-like tokens with long digit runs in every part, repeated markers and trailing number characters"""
+    d = lambda lo, hi: "".join(rng.choice("0123456789") for _ in range(rng.randrange(lo, hi)))
+    t = rng.choice(["", "-"]) + d(1, rng.choice([3, 25, 45]))
+    if rng.random() < 0.6:
+        t += "." + d(0, rng.choice([3, 25, 45]))
+    if rng.random() < 0.7:
+        t += rng.choice("eE") + rng.choice(["", "+", "-"]) + d(0, rng.choice([3, 22, 30, 45]))
+    if rng.random() < 0.6:
+        t += rng.choice(["e5", "E-3", ".5", "-3", "+1", "e", "1e1e1", "..", "e+e", "Infinity", "x"])
+    if rng.random() < 0.5:
+        t = "[" + t + rng.choice(["]", ",1]", "", " ]"])
+    return t.encode()
+
+
 def soup(rng, k=None):
     k = k or rng.randrange(1, 14)
     return b"".join(rng.choice(DICT) for _ in range(k))
@@ -199,8 +214,10 @@ class InputGen:
             k, s = "literal", rng.choice(LITERALS)
             if rng.random() < 0.3:
                 s = s + rng.choice([b"", b" ", b"\x00", b"\n", b",", b"]"])
-        elif r < 0.80:
+        elif r < 0.76:
             k, s = "soup", soup(rng)
+        elif r < 0.80:
+            k, s = "number", weird_number(rng)
         elif r < 0.92:
             k, s = "stream", self.stream()
         else:
